@@ -145,11 +145,14 @@ def verify_functions(quals, timeout_ms, procs=None):
             outs = pool.map(_task, tasks, chunksize=1)
     # obligations left `unknown` while all cores were busy are re-run one at a time with a generous
     # budget, so that machine load does not flip a verdict
+    total_unknown = sum(1 for o in outs for r in o.get('results', []) if r['status'] == 'unknown')
     for k, (o, t) in enumerate(zip(outs, tasks)):
+        if total_unknown > 8:
+            break          # many undecided obligations: the code no longer matches its contracts; go to replay
         unk = set(r['name'] for r in o.get('results', []) if r['status'] == 'unknown')
         if not unk or o.get('cached') or len(unk) > 4 or any(r['status'] == 'sat' for r in o.get('results', [])):
             continue
-        redo = RUN.verify_case(repo_root(), t[0], t[1], timeout_ms=max(t[2], 30000), only_names=unk)
+        redo = RUN.verify_case(repo_root(), t[0], t[1], timeout_ms=60000, only_names=unk, retry=False)
         better = dict((r['name'], r) for r in redo.get('results', []) if r['status'] != 'unknown' and r['kind'] != 'vacuity')
         if better:
             o['results'] = [better.get(r['name'], r) if r['status'] == 'unknown' else r for r in o['results']]
